@@ -526,6 +526,124 @@ fn fd_sequences(case: u64, r: &mut Rng) {
     }
 }
 
+/// Descriptors on which even an EMPTY transfer has an effect or fails: datagram sockets (an empty
+/// write is an empty message), descriptors opened for the other direction (EBADF), a stream socket
+/// whose write side was shut down (EPIPE), a pipe without reader. The twin performs the same calls
+/// through std on an identical descriptor; results and what the peer receives must agree.
+fn special_descriptors(case: u64, r: &mut Rng) {
+    use std::os::unix::net::UnixDatagram;
+    let kind = case % 5;
+    let ctx = jobj! {"case" => case, "special_kind" => kind};
+    let lens = |r: &mut Rng| -> usize { *r.pick(&[0usize, 0, 1, 2, 7, 8, 9, 64]) };
+    match kind {
+        0 => {
+            // datagram pair: writer side through OwnedFd (volatile) / File (std)
+            let (a1, b1) = UnixDatagram::pair().unwrap();
+            let (a2, b2) = UnixDatagram::pair().unwrap();
+            let mut w1: OwnedFd = a1.into();
+            let mut w2 = std::fs::File::from(OwnedFd::from(a2));
+            let n = 1 + r.usize_below(6);
+            for i in 0..n {
+                let data = { let n = lens(r); r.bytes(n) };
+                if !write_step("OwnedFd(datagram)", &mut w1, &mut w2, &data, r.chance(1, 3), i, usize::MAX, &ctx) {
+                    break;
+                }
+            }
+            b1.set_nonblocking(true).unwrap();
+            b2.set_nonblocking(true).unwrap();
+            let drain = |s: &UnixDatagram| -> Vec<Vec<u8>> {
+                let mut out = vec![];
+                let mut buf = [0u8; 256];
+                while let Ok(k) = s.recv(&mut buf) {
+                    out.push(buf[..k].to_vec());
+                    if out.len() > 64 {
+                        break;
+                    }
+                }
+                out
+            };
+            let (g1, g2) = (drain(&b1), drain(&b2));
+            if g1 != g2 {
+                v("OwnedFd(datagram)", "write/peer-received-differs", jobj! {"volatile_datagrams" => J::dbg(&g1.iter().map(|d| d.len()).collect::<Vec<_>>()), "std_datagrams" => J::dbg(&g2.iter().map(|d| d.len()).collect::<Vec<_>>())});
+            }
+            out::key(&format!("special|datagram-writer|{}msgs", g2.len().min(4)), true);
+        }
+        1 => {
+            // datagram reader: messages of several lengths (also empty ones) are queued first
+            let (a1, b1) = UnixDatagram::pair().unwrap();
+            let (a2, b2) = UnixDatagram::pair().unwrap();
+            let n = 1 + r.usize_below(5);
+            for _ in 0..n {
+                let d = { let n = lens(r); r.bytes(n) };
+                a1.send(&d).unwrap();
+                a2.send(&d).unwrap();
+            }
+            b1.set_nonblocking(true).unwrap();
+            b2.set_nonblocking(true).unwrap();
+            let mut r1: OwnedFd = b1.into();
+            let mut r2 = std::fs::File::from(OwnedFd::from(b2));
+            for i in 0..n + 1 {
+                let blen = lens(r);
+                if !read_step("OwnedFd(datagram)", &mut r1, &mut r2, blen, false, i, 64, &ctx) {
+                    break;
+                }
+            }
+            out::key("special|datagram-reader", true);
+        }
+        2 => {
+            // descriptors opened for the other direction
+            let f = crate::models::world::named_temp_file("c13ro", 64);
+            let mut ro1 = std::fs::File::open(&f.1).unwrap();
+            let mut ro2 = std::fs::File::open(&f.1).unwrap();
+            for i in 0..4 {
+                let data = { let n = lens(r); r.bytes(n) };
+                write_step("File(read-only)", &mut ro1, &mut ro2, &data, i % 2 == 1, i, usize::MAX, &ctx);
+            }
+            let mut wo1 = std::fs::OpenOptions::new().write(true).open(&f.1).unwrap();
+            let mut wo2 = std::fs::OpenOptions::new().write(true).open(&f.1).unwrap();
+            for i in 0..4 {
+                read_step("File(write-only)", &mut wo1, &mut wo2, lens(r), false, i, 64, &ctx);
+            }
+            let _ = std::fs::remove_file(&f.1);
+            out::key("special|wrong-direction", true);
+        }
+        3 => {
+            // stream socket whose write side was shut down
+            let (mut a1, _b1) = UnixStream::pair().unwrap();
+            let (mut a2, _b2) = UnixStream::pair().unwrap();
+            a1.shutdown(std::net::Shutdown::Write).unwrap();
+            a2.shutdown(std::net::Shutdown::Write).unwrap();
+            for i in 0..4 {
+                let data = { let n = lens(r); r.bytes(n) };
+                write_step("UnixStream(shut-down)", &mut a1, &mut a2, &data, i % 2 == 1, i, usize::MAX, &ctx);
+            }
+            out::key("special|shutdown-writer", true);
+        }
+        _ => {
+            // pipe whose read end is gone (EPIPE) / whose write end is gone (EOF)
+            let (r1, mut w1) = pipe_pair();
+            let (r2, w2) = pipe_pair();
+            let mut w2 = std::fs::File::from(w2);
+            drop(r1);
+            drop(r2);
+            for i in 0..4 {
+                let data = { let n = lens(r); r.bytes(n) };
+                write_step("OwnedFd(pipe-without-reader)", &mut w1, &mut w2, &data, i % 2 == 1, i, usize::MAX, &ctx);
+            }
+            let (mut r1, w1) = pipe_pair();
+            let (r2, w2) = pipe_pair();
+            let mut r2 = std::fs::File::from(r2);
+            drop(w1);
+            drop(w2);
+            for i in 0..3 {
+                read_step("OwnedFd(pipe-without-writer)", &mut r1, &mut r2, lens(r), i == 2, i, 0, &ctx);
+            }
+            out::key("special|broken-pipe", true);
+        }
+    }
+    out::count("special_descriptor_sequences", 1);
+}
+
 /// Random longer sequences on the in-memory adapters.
 fn mem_sequences(case: u64, r: &mut Rng) {
     let slen = *r.pick(&[0usize, 1, 7, 8, 9, 16, 17, 40, 200, 5000]);
@@ -652,6 +770,9 @@ pub fn run(args: &Args) {
             if !cfg!(miri) && case % 2 == 0 {
                 fd_sequences(case, &mut r);
                 out::count("fd_sequences", 1);
+                if case % 4 == 0 {
+                    special_descriptors(case / 4, &mut r);
+                }
             } else {
                 mem_sequences(case, &mut r);
                 out::count("mem_sequences", 1);
